@@ -33,7 +33,8 @@ func newSnap() *snapComp {
 	return c
 }
 
-func (c *snapComp) Finish() {}
+func (c *snapComp) Finish()     {}
+func (c *snapComp) Cfg() string { return "snap" }
 
 func (c *snapComp) Gen(r *rand.Rand, t, i int, lin bool) []string {
 	k := pick(r, "a", "b", "c", "d")
